@@ -277,6 +277,7 @@ C06_Commit ==
 NextPstate ==
   IF Is("scenario") THEN <<>>
   ELSE IF Is("set_state") /\ ~Has("err") THEN Put(pstate, Ev.node, [term |-> Ev.term, vote |-> Ev.vote])
+  ELSE IF Is("prepared") THEN Put(pstate, Ev.node, [term |-> Ev.term, vote |-> Ev.vote])    \* handler-domain scenarios
   ELSE pstate
 
 ObservedTerm ==    \* <<node, term>> or <<>>
